@@ -211,6 +211,9 @@ def stepCore (c : CoreSt) (fs : List String) : CoreSt × String :=
   | ["rekey", n, t] | ["rekeysm", n, t] | ["rekeyv", n, t] => match n.toNat?, t.toNat? with
     | some n, some t => run (.rekey n t)
     | _, _ => (c, "bad-op")
+  | ["rekeyfail", n, t] | ["rekeysmfail", n, t] => match n.toNat?, t.toNat? with
+    | some n, some t => run (.rekeyFail n t)
+    | _, _ => (c, "bad-op")
   | ["rotroot"] => run .rotroot
   | ["seal"] => run .sealC
   | ["unseal", w] => match parseWho? w with
